@@ -28,6 +28,17 @@ CHECKS["C16"] = dict(
    note="Trusted: CBMC, lowering, the BaseAllocator stub (null or fresh block; free), libc memcpy contract. Stated bound 2^48 on sizes/capacities. Constructors (member-initialiser lists), move operations and the locked-allocator option are not under contract. The last-block test in Realloc forms an out-of-object pointer that is only compared (observation job).",
    technique="CBMC function contracts enforced by DFCC on mechanically sliced member functions (loop-free: complete); bounded unwinding for list walks")
 
+CHECKS["C06"] = dict(
+   text="Growth contracts of the write buffer every emitter writes through (internal::Stack, lowered from stack.h): for every well-formed starting state (allocated with any capacity <= 2^38 and any fill incl. full and capacity 0; the all-null moved-from state) Reserve yields max(old, request) capacity in a block of SONIC_ALIGN(capacity) bytes, Grow(cnt) guarantees End()+cnt <= Begin()+Capacity() on both growth branches, and both preserve Size() and every content byte (ghost index); Push<char>, Push(s,n), Push5_8, PushSize, and Grow(k) followed by unchecked pushes of <= k bytes write only inside the capacity. Complete (loop-free) proofs. The serializer driver SerializeImpl, validity of the emitted text, parse-back equality and idempotence are NOT decided (listed as undecided in the evidence).",
+   design_ref="DESIGN.md section 5 (C06)",
+   note="Trusted: CBMC, lowering, CBMC's realloc model with allocation failure excluded (the code asserts non-null). Stated preconditions: Reserve(n>=1); Grow(0) only with capacity >= 1 (otherwise realloc(p,0)). Pointer checks are off inside Grow and Size only (capacity test past the end of the block; Size() right after realloc); emitter extents for strings/integers are C09/C08.",
+   technique="CBMC function contracts enforced by DFCC on mechanically sliced member functions (loop-free: complete)")
+CHECKS["C09"] = dict(
+   text="Complete proofs for the escape tables (all 256 bytes: need-escape flag, escape length 0/2/6, escape text per RFC 8259) and for CopyAndGetEscapMask (all VEC_LEN-byte blocks, both vector widths: verbatim copy, mask bit i iff byte i needs an escape, lowest set bit marks a byte needing an escape); unbounded loop-contract proof for DoEscape (any run length: reads only [src,src+nb), writes only [dst,dst+6nb+2), consumes k>=1 bytes, emits 2k..6k bytes, stops at the first byte needing no escape); bounded byte-exactness of DoEscape for runs <= 4. Quote itself (extent 6n+2, page-end safety in the production path, byte-exact output) is only covered by bounded jobs in the thorough tier; an unbounded proof did not get through CBMC.",
+   design_ref="DESIGN.md section 5 (C09)",
+   note="Trusted: CBMC, lowering, intrinsic/SIMD-wrapper models. Undecided in the quick tier: Quote's loops (tail guard, tail mask, reservation 6n+32+3 at the serializer call site).",
+   technique="CBMC assertions over full finite domains (tables, one vector block) + DFCC function/loop contracts (DoEscape); bounded unwinding for exactness")
+
 NOT_APPLICABLE = {
  "C01": "driver parseImpl is a goto state machine over C++ containers and a templated SAX handler; no contract lowering achieved yet (leaf recognisers are proved under C04/C05/C11)",
  "C02": "same driver as C01 plus DOM classes/destructors; allocator-kind and leak clauses need the C++ object model CBMC's front end cannot parse",
